@@ -4107,6 +4107,22 @@ theorem lsh_deferred (d : DestSt) (rc : RemoteCfg) (a b : Nat) (hab : a ≤ b)
       · msimp [getP, modP, addPacket, h1, h2, h4, hrc]
         (simp [withTs, tsOf, TS.tile, h1, h2, h4] <;> rw [← hrc])
 
+/-- `_lost_segment_handling` for a File Data PDU that starts below the in-order marker (a retransmission, a
+duplicate, a late tile): `TS.tile`, nothing queued — in either NAK mode -/
+theorem lsh_below (d : DestSt) (a b : Nat) (hab : a ≤ b) (hlt : a < d.p.lastEnd) :
+    lostSegmentHandling a (b - a) d = .ok () { d with p := withTs d.p ((tsOf d.p).tile a b) } := by
+  have hb : a + (b - a) = b := by omega
+  have h1 : ¬ a > d.p.lastEnd := by omega
+  have h2 : ¬ a ≥ d.p.lastEnd := by omega
+  unfold lostSegmentHandling
+  rw [hb]
+  by_cases h4 : b ≤ d.p.lastStart
+  · cases hr : Tracker.remove d.p.trk a b <;>
+      (msimp [getP, modP, addPacket, h1, h2, h4, hr]
+       simp [withTs, tsOf, TS.tile, h1, h2, h4, hr])
+  · msimp [getP, modP, addPacket, h1, h2, h4]
+    simp [withTs, tsOf, TS.tile, h1, h2, h4]
+
 /-- receiver in the middle of an acknowledged transfer in deferred NAK mode after the File Data PDUs of
 the history `h` (tiles of the grid, any order, any losses, any duplicates): the file holds `c`, whose
 length is the in-order marker and whose bytes at every delivered position are the source file's; the
@@ -4126,7 +4142,6 @@ structure RecvG (d : DestSt) (dst : String) (F c : List UInt8) (seg : Nat) (h : 
   hprog : d.p.progress = d.p.lastEnd
   hnoEof : d.p.fileSizeEof = none
   hrc : d.p.remoteCfg = some rc
-  himm : rc.imm = false
   htid : d.p.tid = some t
   hrej : d.rejects = []
   hcks : d.p.cksType = cks
@@ -4224,7 +4239,7 @@ declares nothing; the file and the tracker are as `RecvG` says for the history `
 theorem C03_tile_any (env : Env) (d : DestSt) (dst : String) (F c : List UInt8) (seg : Nat)
     (h : List (Nat × Nat)) (rc : RemoteCfg) (t : Tid) (cks : Nat) (conf hd : Hdr) (a b : Nat)
     (hs : 0 < seg) (hr : RecvG d dst F c seg h rc t cks conf) (ha : AdmissibleA env rc hd)
-    (hT : Tile seg F.length a b) :
+    (hT : Tile seg F.length a b) (himm : rc.imm = false) :
     stateMachine env (some (.fd hd a (tileData F a b))) d =
       .ok () (afterTileG d dst c (tileData F a b) a b env t) ∧
     RecvG (afterTileG d dst c (tileData F a b) a b env t) dst F (Fs.writeBytes c (tileData F a b) a) seg
@@ -4244,7 +4259,7 @@ theorem C03_tile_any (env : Env) (d : DestSt) (dst : String) (F c : List UInt8) 
     subst h1 h2 h3 h4 h5
     cases hi : env.cfg.indSegRecv
     · have hl := lsh_deferred ⟨.busy, .RECEIVING_FILE_DATA, 0, p, [], fs, fl, [], ind, flt⟩ rc a b
-        (Nat.le_of_lt hab) h11 hr.himm
+        (Nat.le_of_lt hab) h11 himm
       try simp only at hl
       msimp [stateMachine, stateMachineWith, checkInsertedPacket, Pdu.hdr, ha.hdir, ha.hdst, ha.hsrc, Pdu.kind,
         Route.getPacketDestination, transmissionMode, hm, nonIdleFsm,
@@ -4255,7 +4270,7 @@ theorem C03_tile_any (env : Env) (d : DestSt) (dst : String) (F c : List UInt8) 
         fsmFromCheckLimit, fsmFromWaitingForMissingData, fsmFromTransferCompletion, fsmFromSendingFinishedPdu,
         fsmFromWaitingForFinishedAck, afterTileG, h10, tsOf]
     · have hl := lsh_deferred ⟨.busy, .RECEIVING_FILE_DATA, 0, p, [], fs, fl, [],
-          ind ++ [.segRecv (some t) a (b - a)], flt⟩ rc a b (Nat.le_of_lt hab) h11 hr.himm
+          ind ++ [.segRecv (some t) a (b - a)], flt⟩ rc a b (Nat.le_of_lt hab) h11 himm
       try simp only at hl
       msimp [stateMachine, stateMachineWith, checkInsertedPacket, Pdu.hdr, ha.hdir, ha.hdst, ha.hsrc, Pdu.kind,
         Route.getPacketDestination, transmissionMode, hm, nonIdleFsm,
@@ -4278,7 +4293,7 @@ theorem C03_tile_any (env : Env) (d : DestSt) (dst : String) (F c : List UInt8) 
           show max b d.p.lastEnd = max d.p.lastEnd b
           omega,
         hnoEof := by simp [afterTileG, withTs, hr.hnoEof], hrc := by simp [afterTileG, withTs, hr.hrc],
-        himm := hr.himm, htid := by simp [afterTileG, withTs, hr.htid], hrej := hr.hrej,
+        htid := by simp [afterTileG, withTs, hr.htid], hrej := hr.hrej,
         hcks := by simp [afterTileG, withTs, hr.hcks], hcancel := by simp [afterTileG, withTs, hr.hcancel],
         hmo := by simp [afterTileG, withTs, hr.hmo], hflts := hr.hflts,
         hfin := by simp [afterTileG, withTs, hr.hfin], hmm := by simp [afterTileG, withTs, hr.hmm],
@@ -4301,20 +4316,22 @@ queues nothing and declares nothing; afterwards the receiver is in `RecvG` for t
 file's length is the largest end seen, every delivered byte is the source file's, the tracker lists
 exactly the undelivered bytes below that end, and no other path of the filestore was touched. -/
 theorem C03_receiver_any_history (env : Env) (hd : Hdr) (dst : String) (F : List UInt8) (seg : Nat)
-    (rc : RemoteCfg) (t : Tid) (cks : Nat) (conf : Hdr) (hs : 0 < seg) (ha : AdmissibleA env rc hd) :
+    (rc : RemoteCfg) (t : Tid) (cks : Nat) (conf : Hdr) (hs : 0 < seg) (ha : AdmissibleA env rc hd)
+    (himm : rc.imm = false) :
     ∀ (h2 : List (Nat × Nat)) (d : DestSt) (c : List UInt8) (h : List (Nat × Nat)),
       (∀ q ∈ h2, Tile seg F.length q.1 q.2) → RecvG d dst F c seg h rc t cks conf →
       ∃ d' c', feedTiles env hd F h2 d = some d' ∧ RecvG d' dst F c' seg (h ++ h2) rc t cks conf ∧
         (∀ q, q ≠ dst → d'.fs.get q = d.fs.get q) ∧
-        d'.inds.filter isFinished = d.inds.filter isFinished := by
+        d'.inds.filter isFinished = d.inds.filter isFinished ∧ d'.p.nakCounter = d.p.nakCounter := by
   intro h2
   induction h2 with
-  | nil => intro d c h _ hr; exact ⟨d, c, rfl, by simpa using hr, fun _ _ => rfl, rfl⟩
+  | nil => intro d c h _ hr; exact ⟨d, c, rfl, by simpa using hr, fun _ _ => rfl, rfl, rfl⟩
   | cons q h2 ih =>
     intro d c h hT hr
     obtain ⟨hcall, hr'⟩ := C03_tile_any env d dst F c seg h rc t cks conf hd q.1 q.2 hs hr ha (hT q List.mem_cons_self)
-    obtain ⟨d', c', hf, hR, hother, hfin⟩ := ih _ _ _ (fun r hr => hT r (List.mem_cons_of_mem _ hr)) hr'
-    refine ⟨d', c', ?_, ?_, ?_, ?_⟩
+      himm
+    obtain ⟨d', c', hf, hR, hother, hfin, hnk⟩ := ih _ _ _ (fun r hr => hT r (List.mem_cons_of_mem _ hr)) hr'
+    refine ⟨d', c', ?_, ?_, ?_, ?_, by rw [hnk]; simp [afterTileG, withTs]⟩
     · simp only [feedTiles, hcall]; exact hf
     · simpa [List.append_assoc] using hR
     · intro p hp
@@ -4326,7 +4343,7 @@ theorem C03_receiver_any_history (env : Env) (hd : Hdr) (dst : String) (F : List
 
 /-- a receiver that took the Metadata PDU (acknowledged, deferred NAK mode) is in `RecvG` for the empty history -/
 theorem RecvG.ofReceivingA {d : DestSt} {dst : String} {F : List UInt8} {seg : Nat} {rc : RemoteCfg} {t : Tid}
-    {cks : Nat} {conf : Hdr} (hr : ReceivingA d dst [] rc t cks conf) (himm : rc.imm = false)
+    {cks : Nat} {conf : Hdr} (hr : ReceivingA d dst [] rc t cks conf)
     (hpt : d.p.procTimer = none) :
     RecvG d dst F [] seg [] rc t cks conf :=
   { hbusy := hr.hbusy, hstep := hr.hstep, hready := hr.hready, hqueue := hr.hqueue, hconf := hr.hconf,
@@ -4334,7 +4351,7 @@ theorem RecvG.ofReceivingA {d : DestSt} {dst : String} {F : List UInt8} {seg : N
     hlen := by have := hr.hlastE; simp at this; simp [this],
     hcov := fun x hx => by obtain ⟨q, hq, _⟩ := hx; simp at hq,
     hprog := by have := hr.hprog; have := hr.hlastE; simp_all,
-    hnoEof := hr.hnoEof, hrc := hr.hrc, himm := himm, htid := hr.htid, hrej := hr.hrej, hcks := hr.hcks,
+    hnoEof := hr.hnoEof, hrc := hr.hrc, htid := hr.htid, hrej := hr.hrej, hcks := hr.hcks,
     hcancel := hr.hcancel, hmo := hr.hmo, hflts := hr.hflts, hfin := hr.hfin, hmm := hr.hmm, hdef := hr.hdef,
     hpt := hpt,
     hinv := by
@@ -4488,7 +4505,6 @@ structure WaitG (d : DestSt) (dst : String) (F c crc : List UInt8) (seg : Nat) (
   hcrc : d.p.crc32 = crc
   hfse : d.p.fileSizeEof = some F.length
   hrc : d.p.remoteCfg = some rc
-  himm : rc.imm = false
   htid : d.p.tid = some t
   hrej : d.rejects = []
   hcks : d.p.cksType = cks
@@ -4553,12 +4569,12 @@ theorem _root_.Cfdp.C06.TInv.hist_le_size {seg size : Nat} {h : List (Nat × Nat
 /-- `AckedG`, the deferred procedure started, the NAKs retrieved: `WaitG` -/
 theorem WaitG.ofAckedG {env : Env} {d : DestSt} {dst : String} {F c crc : List UInt8} {seg : Nat}
     {h : List (Nat × Nat)} {rc : RemoteCfg} {t : Tid} {cks : Nat} {conf : Hdr} {m : Nat}
-    (hr : AckedG d dst F c crc seg h rc t cks conf) (himm : rc.imm = false) (hnak : 0 < rc.nakMs)
+    (hr : AckedG d dst F c crc seg h rc t cks conf) (hnak : 0 < rc.nakMs)
     (hp1 : d.p.progress ≤ F.length) (hp2 : ∀ q ∈ h, q.2 ≤ d.p.progress) :
     WaitG (drained (afterDeferredG env d rc F.length m)) dst F c crc seg h rc t cks conf ⟨env.now, rc.nakMs⟩ :=
   { hbusy := hr.hbusy, hstep := rfl, hready := rfl, hqueue := rfl, hconf := hr.hconf, hmode := hr.hmode,
     hname := hr.hname, hfile := hr.hfile, hlenle := hr.hlenle, hcov := hr.hcov, hprog1 := hp1, hprog2 := hp2,
-    hcrc := hr.hcrc, hfse := hr.hfse, hrc := hr.hrc, himm := himm, htid := hr.htid, hrej := hr.hrej,
+    hcrc := hr.hcrc, hfse := hr.hfse, hrc := hr.hrc, htid := hr.htid, hrej := hr.hrej,
     hcks := hr.hcks, hcancel := hr.hcancel, hmo := hr.hmo, hflts := hr.hflts, hfin := hr.hfin, hmm := hr.hmm,
     hdef := rfl, hpt := rfl, htm := hnak, hmark := rfl,
     hinv := by
@@ -4604,11 +4620,13 @@ theorem C03_resent_tile_any (env : Env) (d : DestSt) (dst : String) (F c crc : L
     have h11 := hr.hrc; have h12 := hr.hdef; have h13 := hr.hpt; have h14 := hr.hcancel; have h15 := hr.hmm
     try simp only at h1 h2 h3 h4 h5 h6 h7 h8 h9 h10 h11 h12 h13 h14 h15 hm hmore hlen0
     subst h1 h2 h3 h4 h5
+    have halt : a < p.lastEnd := by
+      have := hr.hmark; simp only at this; rw [this]; exact hT.2.1
     have hmore' : ((({ ls := p.lastStart, le := p.lastEnd, trk := p.trk } : TS).tile a b).trk = []) = False :=
       eq_false hmore
     cases hi : env.cfg.indSegRecv
-    · have hl := lsh_deferred ⟨.busy, .WAITING_FOR_MISSING_DATA, 0, p, [], fs, fl, [], ind, flt⟩ rc a b
-        (Nat.le_of_lt hab) h11 hr.himm
+    · have hl := lsh_below ⟨.busy, .WAITING_FOR_MISSING_DATA, 0, p, [], fs, fl, [], ind, flt⟩ a b
+        (Nat.le_of_lt hab) halt
       try simp only at hl
       msimp [stateMachineWith, checkInsertedPacket, Pdu.hdr, ha.hdir, ha.hdst, ha.hsrc, Pdu.kind,
         Route.getPacketDestination, transmissionMode, hm, nonIdleFsm,
@@ -4620,8 +4638,8 @@ theorem C03_resent_tile_any (env : Env) (d : DestSt) (dst : String) (F c crc : L
         deferredLostSegmentHandling, h14, h11, h15, hmore', Timer.busy, Timer.timedOut, Timer.reset, htm, htm',
         fsmFromTransferCompletion, fsmFromSendingFinishedPdu,
         fsmFromWaitingForFinishedAck, afterResentG, h10, tsOf]
-    · have hl := lsh_deferred ⟨.busy, .WAITING_FOR_MISSING_DATA, 0, p, [], fs, fl, [],
-          ind ++ [.segRecv (some t) a (b - a)], flt⟩ rc a b (Nat.le_of_lt hab) h11 hr.himm
+    · have hl := lsh_below ⟨.busy, .WAITING_FOR_MISSING_DATA, 0, p, [], fs, fl, [],
+          ind ++ [.segRecv (some t) a (b - a)], flt⟩ a b (Nat.le_of_lt hab) halt
       try simp only at hl
       msimp [stateMachineWith, checkInsertedPacket, Pdu.hdr, ha.hdir, ha.hdst, ha.hsrc, Pdu.kind,
         Route.getPacketDestination, transmissionMode, hm, nonIdleFsm,
@@ -4651,7 +4669,7 @@ theorem C03_resent_tile_any (env : Env) (d : DestSt) (dst : String) (F c crc : L
           · subst hq; simp only; omega,
         hcrc := by simp [afterResentG, withTs, hr.hcrc], hfse := by simp [afterResentG, withTs, hr.hfse],
         hrc := by simp [afterResentG, withTs, hr.hrc],
-        himm := hr.himm, htid := by simp [afterResentG, withTs, hr.htid], hrej := hr.hrej,
+        htid := by simp [afterResentG, withTs, hr.htid], hrej := hr.hrej,
         hcks := by simp [afterResentG, withTs, hr.hcks], hcancel := by simp [afterResentG, withTs, hr.hcancel],
         hmo := by simp [afterResentG, withTs, hr.hmo], hflts := hr.hflts,
         hfin := by simp [afterResentG, withTs, hr.hfin], hmm := by simp [afterResentG, withTs, hr.hmm],
@@ -4705,6 +4723,8 @@ theorem C03_last_resent_tile_any (env : Env) (d : DestSt) (dst : String) (F c cr
   have h16 := hr.hcks; have h17 := hr.hmo; have h18 := hr.hcrc
   try simp only at h1 h2 h3 h4 h5 h6 h7 h8 h9 h10 h11 h12 h13 h14 h15 h16 h17 h18 hm hlast hprog
   subst h1 h2 h3 h4 h5
+  have halt : a < p.lastEnd := by
+    have := hr.hmark; simp only at this; rw [this]; exact hT.2.1
   have hlast' : (({ ls := p.lastStart, le := p.lastEnd, trk := p.trk } : TS).tile a b).trk = [] := hlast
   have hcc : cks = 15 ∨ Fs.calcChecksum (fs.set dst (.file F)) (Checksum.CksType.ofNat cks) dst F.length 4096 = .ok crc := by
     rcases hver with hv | hv
@@ -4713,8 +4733,8 @@ theorem C03_last_resent_tile_any (env : Env) (d : DestSt) (dst : String) (F c cr
   by_cases hnull : cks = 15
   · cases hi : env.cfg.indSegRecv <;> cases hf : env.cfg.indFinished <;>
     (first
-      | (have hl := lsh_deferred ⟨.busy, .WAITING_FOR_MISSING_DATA, 0, p, [], fs, fl, [], ind, flt⟩ rc a b
-            (Nat.le_of_lt hab) h11 hr.himm
+      | (have hl := lsh_below ⟨.busy, .WAITING_FOR_MISSING_DATA, 0, p, [], fs, fl, [], ind, flt⟩ a b
+            (Nat.le_of_lt hab) halt
          try simp only at hl
          msimp [stateMachineWith, checkInsertedPacket, Pdu.hdr, ha.hdir, ha.hdst, ha.hsrc, Pdu.kind,
           Route.getPacketDestination, transmissionMode, hm, nonIdleFsm,
@@ -4731,8 +4751,8 @@ theorem C03_last_resent_tile_any (env : Env) (d : DestSt) (dst : String) (F c cr
           handleWaitingForFinishedAck, handlePositiveAckProcedures, Timer.timedOut, Timer.reset, hms, hpos,
           afterLastG, h10, tsOf]
          done)
-      | (have hl := lsh_deferred ⟨.busy, .WAITING_FOR_MISSING_DATA, 0, p, [], fs, fl, [],
-            ind ++ [.segRecv (some t) a (b - a)], flt⟩ rc a b (Nat.le_of_lt hab) h11 hr.himm
+      | (have hl := lsh_below ⟨.busy, .WAITING_FOR_MISSING_DATA, 0, p, [], fs, fl, [],
+            ind ++ [.segRecv (some t) a (b - a)], flt⟩ a b (Nat.le_of_lt hab) halt
          try simp only at hl
          msimp [stateMachineWith, checkInsertedPacket, Pdu.hdr, ha.hdir, ha.hdst, ha.hsrc, Pdu.kind,
           Route.getPacketDestination, transmissionMode, hm, nonIdleFsm,
@@ -4752,8 +4772,8 @@ theorem C03_last_resent_tile_any (env : Env) (d : DestSt) (dst : String) (F c cr
   · have hc := hcc.resolve_left hnull
     cases hi : env.cfg.indSegRecv <;> cases hf : env.cfg.indFinished <;>
     (first
-      | (have hl := lsh_deferred ⟨.busy, .WAITING_FOR_MISSING_DATA, 0, p, [], fs, fl, [], ind, flt⟩ rc a b
-            (Nat.le_of_lt hab) h11 hr.himm
+      | (have hl := lsh_below ⟨.busy, .WAITING_FOR_MISSING_DATA, 0, p, [], fs, fl, [], ind, flt⟩ a b
+            (Nat.le_of_lt hab) halt
          try simp only at hl
          msimp [stateMachineWith, checkInsertedPacket, Pdu.hdr, ha.hdir, ha.hdst, ha.hsrc, Pdu.kind,
           Route.getPacketDestination, transmissionMode, hm, nonIdleFsm,
@@ -4770,8 +4790,8 @@ theorem C03_last_resent_tile_any (env : Env) (d : DestSt) (dst : String) (F c cr
           handleWaitingForFinishedAck, handlePositiveAckProcedures, Timer.timedOut, Timer.reset, hms, hpos,
           afterLastG, h10, tsOf]
          done)
-      | (have hl := lsh_deferred ⟨.busy, .WAITING_FOR_MISSING_DATA, 0, p, [], fs, fl, [],
-            ind ++ [.segRecv (some t) a (b - a)], flt⟩ rc a b (Nat.le_of_lt hab) h11 hr.himm
+      | (have hl := lsh_below ⟨.busy, .WAITING_FOR_MISSING_DATA, 0, p, [], fs, fl, [],
+            ind ++ [.segRecv (some t) a (b - a)], flt⟩ a b (Nat.le_of_lt hab) halt
          try simp only at hl
          msimp [stateMachineWith, checkInsertedPacket, Pdu.hdr, ha.hdir, ha.hdst, ha.hsrc, Pdu.kind,
           Route.getPacketDestination, transmissionMode, hm, nonIdleFsm,
@@ -4933,8 +4953,8 @@ theorem C03_receiver_recovers_any_loss (env : Env) (hd : Hdr) (d0 : DestSt) (dst
       (∀ q, q ≠ dst → (afterLastG d4 dst F a b env t rc tm).fs.get q = d0.fs.get q) ∧
       (afterLastG d4 dst F a b env t rc tm).flts = [] := by
   -- the File Data PDUs that arrive
-  obtain ⟨d1, c1, hf1, hR1, ho1, -⟩ := C03_receiver_any_history env hd dst F seg rc t cks conf hs ha h1 d0 [] []
-    hT1 (RecvG.ofReceivingA hr0 himm hpt0)
+  obtain ⟨d1, c1, hf1, hR1, ho1, -, -⟩ := C03_receiver_any_history env hd dst F seg rc t cks conf hs ha himm h1 d0 [] []
+    hT1 (RecvG.ofReceivingA hr0 hpt0)
   simp only [List.nil_append] at hR1
   -- the EOF
   have heof := C03_eof_any env d1 dst F c1 crc seg h1 rc t cks conf hd hR1 ha
@@ -4956,7 +4976,7 @@ theorem C03_receiver_recovers_any_loss (env : Env) (hd : Hdr) (d0 : DestSt) (dst
   have hdefc := C03_deferred_any env _ dst F c1 crc seg h1 rc t cks conf m hA hmax hnak htrkne
   have hW : WaitG (drained (afterDeferredG env (drained (afterEofG env d1 t crc F.length)) rc F.length m)) dst F c1
       crc seg h1 rc t cks conf ⟨env.now, rc.nakMs⟩ :=
-    WaitG.ofAckedG hA himm (by omega)
+    WaitG.ofAckedG hA (by omega)
       (by show d1.p.progress ≤ F.length; rw [hR1.hprog]; exact hR1.hinv.leSize)
       (by intro q hq; show q.2 ≤ d1.p.progress; rw [hR1.hprog]; exact hR1.hinv.hle q hq)
   -- retransmissions that leave something missing
@@ -5347,8 +5367,8 @@ theorem C03_receiver_recovers_any_loss_all (env : Env) (hd : Hdr) (d0 : DestSt) 
   have hTpre : ∀ q ∈ pre, Tile seg F.length q.1 q.2 := fun q hq => hT2 q (by rw [hsplit]; simp [hq])
   have hTt : Tile seg F.length tl.1 tl.2 := hT2 tl (by rw [hsplit]; simp)
   -- the pieces, as in `C03_receiver_recovers_any_loss`
-  obtain ⟨d1, c1, hf1, hR1, ho1, hfin1⟩ := C03_receiver_any_history env hd dst F seg rc t cks conf hs ha h1 d0 [] []
-    hT1 (RecvG.ofReceivingA hr0 himm hpt0)
+  obtain ⟨d1, c1, hf1, hR1, ho1, hfin1, -⟩ := C03_receiver_any_history env hd dst F seg rc t cks conf hs ha himm h1 d0 [] []
+    hT1 (RecvG.ofReceivingA hr0 hpt0)
   simp only [List.nil_append] at hR1
   have heof := C03_eof_any env d1 dst F c1 crc seg h1 rc t cks conf hd hR1 ha
   have hA : AckedG (drained (afterEofG env d1 t crc F.length)) dst F c1 crc seg h1 rc t cks conf :=
@@ -5365,7 +5385,7 @@ theorem C03_receiver_recovers_any_loss_all (env : Env) (hd : Hdr) (d0 : DestSt) 
   have hdefc := C03_deferred_any env _ dst F c1 crc seg h1 rc t cks conf m hA hmax hnak htrkne
   have hW : WaitG (drained (afterDeferredG env (drained (afterEofG env d1 t crc F.length)) rc F.length m)) dst F c1
       crc seg h1 rc t cks conf ⟨env.now, rc.nakMs⟩ :=
-    WaitG.ofAckedG hA himm (by omega)
+    WaitG.ofAckedG hA (by omega)
       (by show d1.p.progress ≤ F.length; rw [hR1.hprog]; exact hR1.hinv.leSize)
       (by intro q hq; show q.2 ≤ d1.p.progress; rw [hR1.hprog]; exact hR1.hinv.hle q hq)
   obtain ⟨d4, c4, tm4, hf4, hR4, ho4, hfin4⟩ := C03_wait_any_history env hd dst F crc seg rc t cks conf hs ha pre _ c1 h1 _
@@ -5415,6 +5435,103 @@ theorem C03_receiver_recovers_any_loss_all (env : Env) (hd : Hdr) (d0 : DestSt) 
       rw [this, hfin1]
     simp only [afterLastG, List.filter_append, e4]
     cases env.cfg.indSegRecv <;> cases env.cfg.indFinished <;> simp [isFinished]
+
+/-- **From the EOF on, whatever the NAK mode was while the data arrived.**  The receiver is in `RecvG`
+after some history `h1` that left something missing.  The EOF is acknowledged; the call after the retrieval
+of the ACK issues the NAK sequence for exactly the undelivered bytes; retransmitted tiles `h2` arrive in
+any order, `h1 ++ h2` covering the file; the transfer completes at the tile that delivers the last missing
+byte, later tiles are ignored. -/
+theorem C03_receiver_recovers_from (env : Env) (hd : Hdr) (d1 : DestSt) (dst : String) (F c1 crc : List UInt8)
+    (seg m : Nat) (rc : RemoteCfg) (t : Tid) (cks : Nat) (conf : Hdr) (h1 h2 : List (Nat × Nat))
+    (hs : 0 < seg) (hm1 : 1 ≤ m) (ha : AdmissibleA env rc hd)
+    (hR1 : RecvG d1 dst F c1 seg h1 rc t cks conf)
+    (hmax : maxSegReqs rc.maxPkt conf = some m) (hnak : rc.nakMs ≠ 0) (hms : rc.ackMs ≠ 0)
+    (hT2 : ∀ q ∈ h2, Tile seg F.length q.1 q.2)
+    (hmiss : ∃ x, x < F.length ∧ ¬ covered h1 x)
+    (hall : ∀ x, x < F.length → covered (h1 ++ h2) x)
+    (hver : cks = 15 ∨ ∀ fs : Fs, fs.get dst = some (.file F) →
+      Fs.calcChecksum fs (Checksum.CksType.ofNat cks) dst F.length 4096 = .ok crc) :
+    ∃ d2 d3 dE,
+      stateMachine env (some (.eof hd ccNoError crc F.length none)) d1 = .ok () d2 ∧
+      d2.queue = [mkAck conf dtEof ccNoError tsActive] ∧
+      stateMachine env none (drained d2) = .ok () d3 ∧
+      d3.queue = nakSequence conf F.length m false d3.p.trk ∧
+      WF d3.p.trk ∧ Bounds (OnGrid seg F.length) d3.p.trk ∧
+      (∀ x, den d3.p.trk x ↔ (x < F.length ∧ ¬ covered h1 x)) ∧
+      feedTilesD env hd F h2 (drained d3) = some (drained dE) ∧
+      dE.state = .busy ∧ dE.step = .WAITING_FOR_FINISHED_ACK ∧ dE.p.conf = conf ∧
+      dE.queue = [mkFin conf ⟨ccNoError, dcComplete, fsRetained, none⟩] ∧
+      dE.fs.get dst = some (.file F) ∧ (∀ q, q ≠ dst → dE.fs.get q = d1.fs.get q) ∧ dE.flts = [] ∧
+      dE.inds.filter isFinished = d1.inds.filter isFinished ++
+        (if env.cfg.indFinished then [.finished (some t) ⟨ccNoError, dcComplete, fsRetained, none⟩] else []) := by
+  obtain ⟨pre, tl, post, hsplit, hmiss', hall'⟩ := completes_at F.length h2 h1 hmiss hall
+  have hTpre : ∀ q ∈ pre, Tile seg F.length q.1 q.2 := fun q hq => hT2 q (by rw [hsplit]; simp [hq])
+  have hTt : Tile seg F.length tl.1 tl.2 := hT2 tl (by rw [hsplit]; simp)
+  have heof := C03_eof_any env d1 dst F c1 crc seg h1 rc t cks conf hd hR1 ha
+  have hA : AckedG (drained (afterEofG env d1 t crc F.length)) dst F c1 crc seg h1 rc t cks conf :=
+    AckedG.ofRecvG hR1
+  have hEofInv := hR1.hinv.eof
+  have htrkne : (drained (afterEofG env d1 t crc F.length)).p.trk ≠ [] := by
+    intro hnil
+    have hco : ((tsOf d1.p).eof F.length).trk = [] := by
+      show Tracker.coalesce (tailTrk (tsOf d1.p) F.length) = []
+      have : tailTrk (tsOf d1.p) F.length = [] := hnil
+      rw [this]; rfl
+    obtain ⟨x, hx, hnc⟩ := hmiss
+    exact hnc ((hEofInv.trk_nil_iff).1 hco x hx)
+  have hdefc := C03_deferred_any env _ dst F c1 crc seg h1 rc t cks conf m hA hmax hnak htrkne
+  have hW : WaitG (drained (afterDeferredG env (drained (afterEofG env d1 t crc F.length)) rc F.length m)) dst F c1
+      crc seg h1 rc t cks conf ⟨env.now, rc.nakMs⟩ :=
+    WaitG.ofAckedG hA (by omega)
+      (by show d1.p.progress ≤ F.length; rw [hR1.hprog]; exact hR1.hinv.leSize)
+      (by intro q hq; show q.2 ≤ d1.p.progress; rw [hR1.hprog]; exact hR1.hinv.hle q hq)
+  obtain ⟨d4, c4, tm4, hf4, hR4, ho4, hfin4⟩ := C03_wait_any_history env hd dst F crc seg rc t cks conf hs ha pre _ c1 h1 _
+    hTpre hW hmiss'
+  have hlastc := C03_last_tile_completes env d4 dst F c4 crc seg (h1 ++ pre) rc t cks conf hd tm4 tl.1 tl.2 hs hR4 ha hTt
+    hall' hms hver
+  have hpos : 0 < rc.ackMs := by omega
+  have hlate := feedTilesD_late env hd F rc ⟨env.now, rc.ackMs⟩ ha (by simp [Timer.timedOut]; omega) post
+    (drained (afterLastG d4 dst F tl.1 tl.2 env t rc tm4)) hR4.hbusy rfl rfl rfl
+    (by show d4.p.conf.mode = .ack; rw [hR4.hconf]; exact hR4.hmode)
+    (by show d4.p.remoteCfg = some rc; exact hR4.hrc) rfl
+  have hd3trk : (afterDeferredG env (drained (afterEofG env d1 t crc F.length)) rc F.length m).p.trk =
+      ((tsOf d1.p).eof F.length).trk := by
+    simp [afterDeferredG, drained, afterEofG, eofP, TS.eof, tailTrk, tsOf]
+  refine ⟨afterEofG env d1 t crc F.length, _, afterLastG d4 dst F tl.1 tl.2 env t rc tm4, heof, ?_, hdefc,
+    ?_, ?_, ?_, ?_, ?_, hR4.hbusy, rfl, ?_, ?_, ?_, ?_, hR4.hflts, ?_⟩
+  · simp [afterEofG, hR1.hconf]
+  · simp [afterDeferredG, drained, afterEofG, eofP, hR1.hconf]
+  · rw [hd3trk]; exact hEofInv.wf
+  · rw [hd3trk]; exact hEofInv.grid
+  · intro x; rw [hd3trk]; exact hEofInv.exact x
+  · -- feeding pre, then the completing tile, then the ignored rest
+    rw [hsplit]
+    have hD4 : feedTilesD env hd F pre
+        (drained (afterDeferredG env (drained (afterEofG env d1 t crc F.length)) rc F.length m)) = some d4 := by
+      rw [feedTilesD_wait env hd dst F crc seg rc t cks conf hs ha pre _ c1 h1 _ hTpre hW hmiss']
+      exact hf4
+    rw [feedTilesD_append env hd F pre (tl :: post) _ d4 hD4]
+    simp only [feedTilesD, hlastc]
+    exact hlate
+  · show d4.p.conf = conf
+    exact hR4.hconf
+  · simp [afterLastG, hR4.hconf]
+  · simp [afterLastG, Fs.C17.get_set_same]
+  · intro q hq
+    have e1 : (afterLastG d4 dst F tl.1 tl.2 env t rc tm4).fs.get q = d4.fs.get q := by
+      simp [afterLastG, Fs.C17.get_set_other _ _ _ _ hq]
+    rw [e1, ho4 q hq]
+    rfl
+  · have e4 : d4.inds.filter isFinished = d1.inds.filter isFinished := by
+      rw [hfin4]
+      have : (drained (afterDeferredG env (drained (afterEofG env d1 t crc F.length)) rc F.length m)).inds.filter isFinished =
+          d1.inds.filter isFinished := by
+        simp only [drained, afterDeferredG, afterEofG, List.filter_append]
+        cases env.cfg.indEofRecv <;> simp [isFinished]
+      rw [this]
+    simp only [afterLastG, List.filter_append, e4]
+    cases env.cfg.indSegRecv <;> cases env.cfg.indFinished <;> simp [isFinished]
+
 
 /-! ### both models composed -/
 
@@ -5570,8 +5687,8 @@ theorem C03_end_to_end_any_loss (envS : Source.Env) (envD : Dest.Env) (s : Sourc
     have : 0 < F.length := List.length_pos_iff.mpr hF
     omega
   -- first the part that does not depend on the answers: up to the NAK
-  obtain ⟨d1, c1, hf1, hR1, ho1, hfin1⟩ := C03_receiver_any_history envD hdR dst F seg rcD ⟨hdR.src, hdR.seq⟩ rcS.cks
-    cd hseg0 ha h1 _ [] [] hT1 (RecvG.ofReceivingA hRA himm hpt0)
+  obtain ⟨d1, c1, hf1, hR1, ho1, hfin1, -⟩ := C03_receiver_any_history envD hdR dst F seg rcD ⟨hdR.src, hdR.seq⟩ rcS.cks
+    cd hseg0 ha himm h1 _ [] [] hT1 (RecvG.ofReceivingA hRA hpt0)
   simp only [List.nil_append] at hR1
   have hEofInv := hR1.hinv.eof
   -- the listing after the EOF: well-formed, on the grid, inside the file, exactly the missing bytes
@@ -5690,6 +5807,434 @@ theorem C03_end_to_end_any_loss (envS : Source.Env) (envD : Dest.Env) (s : Sourc
   · show dE.inds.filter isFinished = _
     rw [hEinds]
     simp [afterMdA, isFinished, hdR, fpOk]
+
+
+/-! ## Any loss pattern, immediate NAK mode: the receiver while the file data arrives -/
+
+/-- the immediate NAK a tile `[a, b)` triggers when it opens a gap behind the marker `le` -/
+def immNak (conf : Hdr) (le a b : Nat) : List Pdu :=
+  if a > le then [mkNak conf 0 b [(le, a)]] else []
+
+/-- `_lost_segment_handling` in immediate NAK mode: `TS.tile`, and exactly the immediate NAK for the gap -/
+theorem lsh_immediate (d : DestSt) (rc : RemoteCfg) (a b : Nat) (hab : a ≤ b)
+    (hrc : d.p.remoteCfg = some rc) (himm : rc.imm = true) :
+    lostSegmentHandling a (b - a) d =
+      .ok () { d with p := withTs d.p ((tsOf d.p).tile a b),
+                      queue := d.queue ++ immNak d.p.conf d.p.lastEnd a b,
+                      numReady := d.numReady + (immNak d.p.conf d.p.lastEnd a b).length } := by
+  have hb : a + (b - a) = b := by omega
+  unfold lostSegmentHandling
+  rw [hb]
+  by_cases h1 : a > d.p.lastEnd
+  · have h2 : a ≥ d.p.lastEnd := by omega
+    by_cases h4 : b ≤ a
+    · cases hr : Tracker.remove (Tracker.add d.p.trk (d.p.lastEnd, a)) a b <;>
+        (msimp [getP, modP, addPacket, h1, h2, h4, hrc, himm, hr]
+         (simp [withTs, tsOf, TS.tile, immNak, h1, h2, h4, hr] <;> rw [← hrc]))
+    · msimp [getP, modP, addPacket, h1, h2, h4, hrc, himm]
+      (simp [withTs, tsOf, TS.tile, immNak, h1, h2, h4] <;> rw [← hrc])
+  · by_cases h2 : a ≥ d.p.lastEnd
+    · by_cases h4 : b ≤ a
+      · cases hr : Tracker.remove d.p.trk a b <;>
+          (msimp [getP, modP, addPacket, h1, h2, h4, hrc, hr]
+           (simp [withTs, tsOf, TS.tile, immNak, h1, h2, h4, hr] <;> rw [← hrc]))
+      · msimp [getP, modP, addPacket, h1, h2, h4, hrc]
+        (simp [withTs, tsOf, TS.tile, immNak, h1, h2, h4] <;> rw [← hrc])
+    · by_cases h4 : b ≤ d.p.lastStart
+      · cases hr : Tracker.remove d.p.trk a b <;>
+          (msimp [getP, modP, addPacket, h1, h2, h4, hrc, hr]
+           (simp [withTs, tsOf, TS.tile, immNak, h1, h2, h4, hr] <;> rw [← hrc]))
+      · msimp [getP, modP, addPacket, h1, h2, h4, hrc]
+        (simp [withTs, tsOf, TS.tile, immNak, h1, h2, h4] <;> rw [← hrc])
+
+/-- state after a tile in immediate NAK mode: as in deferred mode, plus the NAK for the gap it opened -/
+def afterTileGI (d : DestSt) (dst : String) (c data : List UInt8) (a b : Nat) (env : Env) (t : Tid) : DestSt :=
+  { afterTileG d dst c data a b env t with
+      queue := immNak d.p.conf d.p.lastEnd a b, numReady := (immNak d.p.conf d.p.lastEnd a b).length }
+
+/-- **One File Data PDU, any position, immediate NAK mode.**  As `C03_tile_any`; in addition, a tile that
+opens a gap behind the in-order marker is answered at once by exactly one NAK PDU, scope `(0, b)`, requesting
+exactly the gap `[marker, a)` — bytes that no PDU of the history delivered
+(`C06_immediate_nak_only_missing`); any other tile queues nothing. -/
+theorem C03_tile_any_immediate (env : Env) (d : DestSt) (dst : String) (F c : List UInt8) (seg : Nat)
+    (h : List (Nat × Nat)) (rc : RemoteCfg) (t : Tid) (cks : Nat) (conf hd : Hdr) (a b : Nat)
+    (hs : 0 < seg) (hr : RecvG d dst F c seg h rc t cks conf) (ha : AdmissibleA env rc hd)
+    (hT : Tile seg F.length a b) (himm : rc.imm = true) :
+    stateMachine env (some (.fd hd a (tileData F a b))) d =
+      .ok () (afterTileGI d dst c (tileData F a b) a b env t) ∧
+    RecvG (drained (afterTileGI d dst c (tileData F a b) a b env t)) dst F (Fs.writeBytes c (tileData F a b) a) seg
+      (h ++ [(a, b)]) rc t cks conf ∧
+    (∀ x, d.p.lastEnd ≤ x → x < a → ¬ covered h x) := by
+  have hab := hT.lt hs
+  have hdl := tileData_length hT
+  have hsum : a + (b - a) = b := by omega
+  have hm : d.p.conf.mode = .ack := by rw [hr.hconf]; exact hr.hmode
+  obtain ⟨hflen, hfcov⟩ := file_after_tile hs hr.hinv hT hr.hlen hr.hcov
+  have hle' := (tsOf d.p).tile_le hs hr.hinv hT
+  refine ⟨?_, ?_, ?_⟩
+  · obtain ⟨st, stp, nr, p, q, fs, fl, rej, ind, flt⟩ := d
+    have h1 := hr.hbusy; have h2 := hr.hstep; have h3 := hr.hready; have h4 := hr.hqueue; have h5 := hr.hrej
+    have h6 := hr.htid; have h7 := hr.hname; have h8 := hr.hfile; have h9 := hr.hnoEof; have h10 := hr.hfin
+    have h11 := hr.hrc
+    try simp only at h1 h2 h3 h4 h5 h6 h7 h8 h9 h10 h11 hm
+    subst h1 h2 h3 h4 h5
+    cases hi : env.cfg.indSegRecv
+    · have hl := lsh_immediate ⟨.busy, .RECEIVING_FILE_DATA, 0, p, [], fs, fl, [], ind, flt⟩ rc a b
+        (Nat.le_of_lt hab) h11 himm
+      try simp only at hl
+      msimp [stateMachine, stateMachineWith, checkInsertedPacket, Pdu.hdr, ha.hdir, ha.hdst, ha.hsrc, Pdu.kind,
+        Route.getPacketDestination, transmissionMode, hm, nonIdleFsm,
+        fsmAdvancementAfterPacketsWereSent, fsmFromReceiving, handleFdOrEofPdu, handleFdPdu,
+        fdIndication, hi, getP, emitInd, h6, fdLostSegments, hdl, hl,
+        fdWrite, vfsWriteData, h7, withTs,
+        Fs.writeData, h8, fdAfterWrite, sizeErrOf, modP, h9, hsum, fsmFromWaitingForMetadata,
+        fsmFromCheckLimit, fsmFromWaitingForMissingData, fsmFromTransferCompletion, fsmFromSendingFinishedPdu,
+        fsmFromWaitingForFinishedAck, afterTileGI, afterTileG, h10, tsOf]
+    · have hl := lsh_immediate ⟨.busy, .RECEIVING_FILE_DATA, 0, p, [], fs, fl, [],
+          ind ++ [.segRecv (some t) a (b - a)], flt⟩ rc a b (Nat.le_of_lt hab) h11 himm
+      try simp only at hl
+      msimp [stateMachine, stateMachineWith, checkInsertedPacket, Pdu.hdr, ha.hdir, ha.hdst, ha.hsrc, Pdu.kind,
+        Route.getPacketDestination, transmissionMode, hm, nonIdleFsm,
+        fsmAdvancementAfterPacketsWereSent, fsmFromReceiving, handleFdOrEofPdu, handleFdPdu,
+        fdIndication, hi, getP, emitInd, h6, fdLostSegments, hdl, hl,
+        fdWrite, vfsWriteData, h7, withTs,
+        Fs.writeData, h8, fdAfterWrite, sizeErrOf, modP, h9, hsum, fsmFromWaitingForMetadata,
+        fsmFromCheckLimit, fsmFromWaitingForMissingData, fsmFromTransferCompletion, fsmFromSendingFinishedPdu,
+        fsmFromWaitingForFinishedAck, afterTileGI, afterTileG, h10, tsOf]
+  · exact
+      { hbusy := hr.hbusy, hstep := hr.hstep, hready := rfl, hqueue := rfl,
+        hconf := by simp [drained, afterTileGI, afterTileG, withTs, hr.hconf], hmode := hr.hmode,
+        hname := by simp [drained, afterTileGI, afterTileG, withTs, hr.hname],
+        hfile := by simp [drained, afterTileGI, afterTileG, Fs.C17.get_set_same],
+        hlen := by simp [drained, afterTileGI, afterTileG, withTs, hflen],
+        hcov := hfcov,
+        hprog := by
+          show max b d.p.progress = ((tsOf d.p).tile a b).le
+          rw [hle', hr.hprog]
+          show max b d.p.lastEnd = max d.p.lastEnd b
+          omega,
+        hnoEof := by simp [drained, afterTileGI, afterTileG, withTs, hr.hnoEof],
+        hrc := by simp [drained, afterTileGI, afterTileG, withTs, hr.hrc],
+        htid := by simp [drained, afterTileGI, afterTileG, withTs, hr.htid], hrej := hr.hrej,
+        hcks := by simp [drained, afterTileGI, afterTileG, withTs, hr.hcks],
+        hcancel := by simp [drained, afterTileGI, afterTileG, withTs, hr.hcancel],
+        hmo := by simp [drained, afterTileGI, afterTileG, withTs, hr.hmo], hflts := hr.hflts,
+        hfin := by simp [drained, afterTileGI, afterTileG, withTs, hr.hfin],
+        hmm := by simp [drained, afterTileGI, afterTileG, withTs, hr.hmm],
+        hdef := by simp [drained, afterTileGI, afterTileG, withTs, hr.hdef],
+        hpt := by simp [drained, afterTileGI, afterTileG, withTs, hr.hpt],
+        hinv := by
+          have := hr.hinv.tile hs hT
+          simpa [drained, afterTileGI, afterTileG, withTs, tsOf] using this }
+  · intro x h1 _ ⟨q, hq, _, q2⟩
+    have := hr.hinv.hle q hq
+    simp only [tsOf] at this
+    omega
+
+/-- the tiles of a history handed to the receiver one call each, the user retrieving what each call
+queued; returns everything retrieved -/
+def feedTilesOut (env : Env) (hd : Hdr) (F : List UInt8) : List (Nat × Nat) → DestSt → Option (List Pdu × DestSt)
+  | [], d => some ([], d)
+  | q :: rest, d =>
+    match stateMachine env (some (.fd hd q.1 (tileData F q.1 q.2))) d with
+    | .ok _ d' =>
+      match feedTilesOut env hd F rest (drained d') with
+      | some (out, d'') => some (d'.queue ++ out, d'')
+      | none => none
+    | .error _ _ => none
+
+/-- **Any history of File Data PDUs, immediate NAK mode.**  Every call returns; the receiver stays in
+`RecvG` for the growing history; everything it emits on the way is an immediate NAK PDU
+`nak conf 0 b [(le, a)]` for a gap `[le, a)` opened by a tile `[a, b)`, and at the moment it is emitted no
+PDU delivered so far had delivered any byte of that gap. -/
+theorem C03_receiver_any_history_immediate (env : Env) (hd : Hdr) (dst : String) (F : List UInt8) (seg : Nat)
+    (rc : RemoteCfg) (t : Tid) (cks : Nat) (conf : Hdr) (hs : 0 < seg) (ha : AdmissibleA env rc hd)
+    (himm : rc.imm = true) :
+    ∀ (h2 : List (Nat × Nat)) (d : DestSt) (c : List UInt8) (h : List (Nat × Nat)),
+      (∀ q ∈ h2, Tile seg F.length q.1 q.2) → RecvG d dst F c seg h rc t cks conf →
+      ∃ d' c' out, feedTilesOut env hd F h2 d = some (out, d') ∧ RecvG d' dst F c' seg (h ++ h2) rc t cks conf ∧
+        (∀ p ∈ out, ∃ pre le a b, pre <+: h2 ∧ p = mkNak conf 0 b [(le, a)] ∧ le < a ∧ a < b ∧ b ≤ F.length ∧
+          ∀ x, le ≤ x → x < a → ¬ covered (h ++ pre) x) ∧
+        (∀ q, q ≠ dst → d'.fs.get q = d.fs.get q) := by
+  intro h2
+  induction h2 with
+  | nil => intro d c h _ hr; exact ⟨d, c, [], rfl, by simpa using hr, by simp, fun _ _ => rfl⟩
+  | cons q h2 ih =>
+    intro d c h hT hr
+    have hTq := hT q List.mem_cons_self
+    obtain ⟨hcall, hr', hgap⟩ := C03_tile_any_immediate env d dst F c seg h rc t cks conf hd q.1 q.2 hs hr ha hTq himm
+    obtain ⟨d', c', out, hf, hR, hout, hother⟩ := ih _ _ _ (fun r hr => hT r (List.mem_cons_of_mem _ hr)) hr'
+    refine ⟨d', c', (afterTileGI d dst c (tileData F q.1 q.2) q.1 q.2 env t).queue ++ out, ?_, ?_, ?_, ?_⟩
+    · simp only [feedTilesOut, hcall, hf]
+    · simpa [List.append_assoc] using hR
+    · intro p hp
+      rcases List.mem_append.mp hp with hp | hp
+      · -- the NAK of this very call
+        simp only [afterTileGI, immNak] at hp
+        split at hp
+        · rename_i hgt
+          simp at hp
+          refine ⟨[], d.p.lastEnd, q.1, q.2, List.nil_prefix, ?_, hgt, hTq.lt hs, hTq.le_size, ?_⟩
+          · rw [hp, hr.hconf]
+          · intro x h1 h2'; simpa using hgap x h1 h2'
+        · simp at hp
+      · obtain ⟨pre, le, a, b, hpre, e, h1, h2', h3, h4⟩ := hout p hp
+        refine ⟨q :: pre, le, a, b, ?_, e, h1, h2', h3, ?_⟩
+        · exact List.prefix_cons_inj q |>.mpr hpre
+        · intro x hx1 hx2
+          have := h4 x hx1 hx2
+          simpa [List.append_assoc] using this
+    · intro p hp
+      rw [hother p hp]
+      simp [drained, afterTileGI, afterTileG, Fs.C17.get_set_other _ _ _ _ hp]
+
+
+/-- **Recovery from any loss when the immediate NAKs were lost too** (receiver side, immediate NAK
+mode).  While the File Data PDUs of `h1` arrive, every gap is requested at once
+(`C03_receiver_any_history_immediate`) — suppose none of those NAKs gets through.  Then, after the EOF, the
+deferred procedure requests exactly what is still undelivered, and the run ends as in deferred mode. -/
+theorem C03_receiver_recovers_any_loss_immediate (env : Env) (hd : Hdr) (d0 : DestSt) (dst : String)
+    (F crc : List UInt8) (seg m : Nat) (rc : RemoteCfg) (t : Tid) (cks : Nat) (conf : Hdr)
+    (h1 h2 : List (Nat × Nat)) (hs : 0 < seg) (hm1 : 1 ≤ m) (ha : AdmissibleA env rc hd)
+    (hr0 : ReceivingA d0 dst [] rc t cks conf) (himm : rc.imm = true) (hpt0 : d0.p.procTimer = none)
+    (hmax : maxSegReqs rc.maxPkt conf = some m) (hnak : rc.nakMs ≠ 0) (hms : rc.ackMs ≠ 0)
+    (hT1 : ∀ q ∈ h1, Tile seg F.length q.1 q.2) (hT2 : ∀ q ∈ h2, Tile seg F.length q.1 q.2)
+    (hmiss : ∃ x, x < F.length ∧ ¬ covered h1 x)
+    (hall : ∀ x, x < F.length → covered (h1 ++ h2) x)
+    (hver : cks = 15 ∨ ∀ fs : Fs, fs.get dst = some (.file F) →
+      Fs.calcChecksum fs (Checksum.CksType.ofNat cks) dst F.length 4096 = .ok crc) :
+    ∃ d1 out d2 d3 dE,
+      feedTilesOut env hd F h1 d0 = some (out, d1) ∧
+      (∀ p ∈ out, ∃ pre le a b, pre <+: h1 ∧ p = mkNak conf 0 b [(le, a)] ∧ le < a ∧ a < b ∧ b ≤ F.length ∧
+        ∀ x, le ≤ x → x < a → ¬ covered pre x) ∧
+      stateMachine env (some (.eof hd ccNoError crc F.length none)) d1 = .ok () d2 ∧
+      d2.queue = [mkAck conf dtEof ccNoError tsActive] ∧
+      stateMachine env none (drained d2) = .ok () d3 ∧
+      d3.queue = nakSequence conf F.length m false d3.p.trk ∧
+      (∀ x, den d3.p.trk x ↔ (x < F.length ∧ ¬ covered h1 x)) ∧
+      feedTilesD env hd F h2 (drained d3) = some (drained dE) ∧
+      dE.queue = [mkFin conf ⟨ccNoError, dcComplete, fsRetained, none⟩] ∧
+      dE.fs.get dst = some (.file F) ∧ (∀ q, q ≠ dst → dE.fs.get q = d0.fs.get q) ∧ dE.flts = [] := by
+  obtain ⟨d1, c1, out, hf1, hR1, hout, ho1⟩ := C03_receiver_any_history_immediate env hd dst F seg rc t cks conf hs ha
+    himm h1 d0 [] [] hT1 (RecvG.ofReceivingA hr0 hpt0)
+  simp only [List.nil_append] at hR1 hout
+  obtain ⟨d2, d3, dE, heof, hq2, hdef, hq3, -, -, hd3, hfeed, -, -, -, hEq, hEfile, hEother, hEflts, -⟩ :=
+    C03_receiver_recovers_from env hd d1 dst F c1 crc seg m rc t cks conf h1 h2 hs hm1 ha hR1 hmax hnak hms hT2
+      hmiss hall hver
+  exact ⟨d1, out, d2, d3, dE, hf1, hout, heof, hq2, hdef, hq3, hd3, hfeed, hEq, hEfile,
+    fun q hq => by rw [hEother q hq, ho1 q hq], hEflts⟩
+
+
+/-! ### the NAK sequence is lost (any number of times below the limit), any loss pattern -/
+
+/-- **From the waiting state to completion**: retransmitted tiles `h2` in any order, `h ++ h2` covering the
+file: completion at the tile that delivers the last missing byte; later tiles are ignored.  (The tile calls
+are made at the clock value `env.now`; the completing call starts the Finished timer there.) -/
+theorem C03_wait_recovers (env : Env) (hd : Hdr) (d : DestSt) (dst : String) (F c crc : List UInt8)
+    (seg : Nat) (rc : RemoteCfg) (t : Tid) (cks : Nat) (conf : Hdr) (tm : Timer) (h h2 : List (Nat × Nat))
+    (hs : 0 < seg) (ha : AdmissibleA env rc hd) (hW : WaitG d dst F c crc seg h rc t cks conf tm)
+    (hms : rc.ackMs ≠ 0) (hT2 : ∀ q ∈ h2, Tile seg F.length q.1 q.2)
+    (hmiss : ∃ x, x < F.length ∧ ¬ covered h x) (hall : ∀ x, x < F.length → covered (h ++ h2) x)
+    (hver : cks = 15 ∨ ∀ fs : Fs, fs.get dst = some (.file F) →
+      Fs.calcChecksum fs (Checksum.CksType.ofNat cks) dst F.length 4096 = .ok crc) :
+    ∃ dE, feedTilesD env hd F h2 d = some (drained dE) ∧
+      dE.state = .busy ∧ dE.step = .WAITING_FOR_FINISHED_ACK ∧ dE.p.conf = conf ∧
+      dE.queue = [mkFin conf ⟨ccNoError, dcComplete, fsRetained, none⟩] ∧
+      dE.fs.get dst = some (.file F) ∧ (∀ q, q ≠ dst → dE.fs.get q = d.fs.get q) ∧ dE.flts = [] ∧
+      dE.inds.filter isFinished = d.inds.filter isFinished ++
+        (if env.cfg.indFinished then [.finished (some t) ⟨ccNoError, dcComplete, fsRetained, none⟩] else []) := by
+  obtain ⟨pre, tl, post, hsplit, hmiss', hall'⟩ := completes_at F.length h2 h hmiss hall
+  have hTpre : ∀ q ∈ pre, Tile seg F.length q.1 q.2 := fun q hq => hT2 q (by rw [hsplit]; simp [hq])
+  have hTt : Tile seg F.length tl.1 tl.2 := hT2 tl (by rw [hsplit]; simp)
+  obtain ⟨d4, c4, tm4, hf4, hR4, ho4, hfin4⟩ := C03_wait_any_history env hd dst F crc seg rc t cks conf hs ha pre d c h tm
+    hTpre hW hmiss'
+  have hlastc := C03_last_tile_completes env d4 dst F c4 crc seg (h ++ pre) rc t cks conf hd tm4 tl.1 tl.2 hs hR4 ha hTt
+    hall' hms hver
+  have hpos : 0 < rc.ackMs := by omega
+  have hlate := feedTilesD_late env hd F rc ⟨env.now, rc.ackMs⟩ ha (by simp [Timer.timedOut]; omega) post
+    (drained (afterLastG d4 dst F tl.1 tl.2 env t rc tm4)) hR4.hbusy rfl rfl rfl
+    (by show d4.p.conf.mode = .ack; rw [hR4.hconf]; exact hR4.hmode)
+    (by show d4.p.remoteCfg = some rc; exact hR4.hrc) rfl
+  refine ⟨afterLastG d4 dst F tl.1 tl.2 env t rc tm4, ?_, hR4.hbusy, rfl, ?_, ?_, ?_, ?_, hR4.hflts, ?_⟩
+  · rw [hsplit]
+    have hD4 : feedTilesD env hd F pre d = some d4 := by
+      rw [feedTilesD_wait env hd dst F crc seg rc t cks conf hs ha pre d c h tm hTpre hW hmiss']
+      exact hf4
+    rw [feedTilesD_append env hd F pre (tl :: post) d d4 hD4]
+    simp only [feedTilesD, hlastc]
+    exact hlate
+  · show d4.p.conf = conf
+    exact hR4.hconf
+  · simp [afterLastG, hR4.hconf]
+  · simp [afterLastG, Fs.C17.get_set_same]
+  · intro q hq
+    have e1 : (afterLastG d4 dst F tl.1 tl.2 env t rc tm4).fs.get q = d4.fs.get q := by
+      simp [afterLastG, Fs.C17.get_set_other _ _ _ _ hq]
+    rw [e1, ho4 q hq]
+  · simp only [afterLastG, List.filter_append, hfin4]
+    cases env.cfg.indSegRecv <;> cases env.cfg.indFinished <;> simp [isFinished]
+
+/-- state after an expiry of the NAK timer below the limit: the NAK sequence issued again -/
+def afterNakExpiryG (env : Env) (d : DestSt) (size m : Nat) (tm : Timer) : DestSt :=
+  { d with queue := nakSequence d.p.conf size m false d.p.trk,
+           numReady := (nakSequence d.p.conf size m false d.p.trk).length,
+           p := { d.p with nakCounter := d.p.nakCounter + 1, procTimer := some (tm.reset env.now) } }
+
+/-- **An expiry of the NAK timer below the limit, any loss pattern (whole call)**: exactly the NAK
+sequence of the current listing is issued again — still exactly the undelivered bytes —, the counter
+grows by one, the timer restarts; file, listing, indications untouched. -/
+theorem C03_nak_expiry_any (env : Env) (d : DestSt) (dst : String) (F c crc : List UInt8) (seg : Nat)
+    (h : List (Nat × Nat)) (rc : RemoteCfg) (t : Tid) (cks : Nat) (conf : Hdr) (tm : Timer) (m : Nat)
+    (hr : WaitG d dst F c crc seg h rc t cks conf tm) (hmax : maxSegReqs rc.maxPkt conf = some m)
+    (hexp : tm.timedOut env.now = true) (hlim : d.p.nakCounter + 1 ≠ rc.nakLim)
+    (hmiss : ∃ x, x < F.length ∧ ¬ covered h x) :
+    stateMachine env none d = .ok () (afterNakExpiryG env d F.length m tm) ∧
+    WaitG (drained (afterNakExpiryG env d F.length m tm)) dst F c crc seg h rc t cks conf (tm.reset env.now) := by
+  have hmax' : maxSegReqs rc.maxPkt d.p.conf = some m := by rw [hr.hconf]; exact hmax
+  have hmark := hr.hmark
+  have htrk : d.p.trk ≠ [] := by
+    intro hnil
+    obtain ⟨x, hx, hnc⟩ := hmiss
+    have := (hr.hinv.trk_nil_iff).1 hnil x (by show x < d.p.lastEnd; rw [hmark]; exact hx)
+    exact hnc this
+  have hlen0 : ¬ d.p.trk.length = 0 := fun hc => htrk (List.eq_nil_of_length_eq_zero hc)
+  have hbusyT : tm.busy env.now = false := by simp [Timer.busy, hexp]
+  constructor
+  · unfold stateMachine
+    generalize (stateMachineWith env none (stateMachineWith env none (throw Err.recursionError))) = rec
+    msimp [stateMachineWith, hr.hbusy, nonIdleFsm, fsmAdvancementAfterPacketsWereSent, hr.hqueue, hr.hstep,
+      fsmFromReceiving, fsmFromWaitingForMetadata, fsmFromCheckLimit, fsmFromWaitingForMissingData,
+      deferredLostSegmentHandling, getP, hr.hdef, hr.hcancel, hr.hrc, hr.hfse, hlen0, htrk, hr.hmm, hr.hpt,
+      hbusyT, Timer.busy, hexp, hlim, hmax', addPackets, modP, hr.hready,
+      fsmFromTransferCompletion, fsmFromSendingFinishedPdu, fsmFromWaitingForFinishedAck, afterNakExpiryG]
+  · exact
+      { hbusy := hr.hbusy, hstep := hr.hstep, hready := rfl, hqueue := rfl, hconf := hr.hconf, hmode := hr.hmode,
+        hname := hr.hname, hfile := hr.hfile, hlenle := hr.hlenle, hcov := hr.hcov, hprog1 := hr.hprog1,
+        hprog2 := hr.hprog2, hcrc := hr.hcrc, hfse := hr.hfse, hrc := hr.hrc, htid := hr.htid, hrej := hr.hrej,
+        hcks := hr.hcks, hcancel := hr.hcancel, hmo := hr.hmo, hflts := hr.hflts, hfin := hr.hfin, hmm := hr.hmm,
+        hdef := hr.hdef, hpt := rfl, htm := by simpa [Timer.reset] using hr.htm, hmark := hr.hmark,
+        hinv := hr.hinv }
+
+/-- the receiver called at each of the given times with nothing arriving, its queue retrieved after each call -/
+def nakRoundsG (cfg : LocalCfg) : List Nat → DestSt → Option (List (List Pdu) × DestSt)
+  | [], d => some ([], d)
+  | tt :: ts, d =>
+    match stateMachine ⟨cfg, tt⟩ none d with
+    | .error _ _ => none
+    | .ok _ d' =>
+      match nakRoundsG cfg ts (drained d') with
+      | none => none
+      | some (outs, d'') => some (d'.queue :: outs, d'')
+
+/-- **Any number of NAK timer expiries below the limit, any loss pattern**: each re-issues exactly the
+NAK sequence of the (unchanged) listing; the receiver keeps waiting. -/
+theorem C03_nak_expiries_any (cfg : LocalCfg) (dst : String) (F crc : List UInt8) (seg : Nat)
+    (h : List (Nat × Nat)) (rc : RemoteCfg) (t : Tid) (cks : Nat) (conf : Hdr) (m : Nat)
+    (hmax : maxSegReqs rc.maxPkt conf = some m) (hmiss : ∃ x, x < F.length ∧ ¬ covered h x) :
+    ∀ (times : List Nat) (d : DestSt) (c : List UInt8) (tm : Timer),
+      WaitG d dst F c crc seg h rc t cks conf tm → C04.Expiring tm.timeout tm.start times →
+      d.p.nakCounter + times.length < rc.nakLim →
+      ∃ d' outs, nakRoundsG cfg times d = some (outs, d') ∧
+        WaitG d' dst F c crc seg h rc t cks conf ⟨C04.lastOr tm.start times, tm.timeout⟩ ∧
+        outs = List.replicate times.length (nakSequence conf F.length m false d.p.trk) ∧
+        d'.p.trk = d.p.trk ∧ d'.fs = d.fs ∧ d'.inds = d.inds ∧
+        d'.p.nakCounter = d.p.nakCounter + times.length := by
+  intro times
+  induction times with
+  | nil =>
+    intro d c tm hr _ _
+    exact ⟨d, [], rfl, by simpa [C04.lastOr] using hr, rfl, rfl, rfl, rfl, rfl⟩
+  | cons x xs ih =>
+    intro d c tm hr hexp hlim
+    simp only [C04.Expiring] at hexp
+    simp only [List.length_cons] at hlim
+    obtain ⟨hcall, hW⟩ := C03_nak_expiry_any ⟨cfg, x⟩ d dst F c crc seg h rc t cks conf tm m hr hmax
+      (by simp [Timer.timedOut]; exact hexp.1) (by omega) hmiss
+    obtain ⟨d', outs, hrest, hW', hout, htrk, hfs, hin, hnc⟩ := ih (drained (afterNakExpiryG ⟨cfg, x⟩ d F.length m tm)) c
+      (tm.reset x) hW (by simpa [Timer.reset] using hexp.2)
+      (by show d.p.nakCounter + 1 + xs.length < rc.nakLim; omega)
+    refine ⟨d', (afterNakExpiryG ⟨cfg, x⟩ d F.length m tm).queue :: outs, ?_, ?_, ?_, ?_, ?_, ?_, ?_⟩
+    · simp only [nakRoundsG, hcall, hrest]
+    · simpa [C04.lastOr, Timer.reset] using hW'
+    · rw [hout]
+      simp [afterNakExpiryG, drained, hr.hconf, List.replicate_succ]
+    · rw [htrk]; rfl
+    · rw [hfs]; rfl
+    · rw [hin]; rfl
+    · rw [hnc]; simp [afterNakExpiryG, drained]; omega
+
+
+/-- **Recovery from any loss of File Data PDUs although the NAK sequence was lost as well** (receiver
+side).  After the history `h1` and the EOF the deferred procedure issues the NAK sequence; it does not get
+through; at each of the expiries `times` of the NAK timer (fewer than the limit) exactly the same sequence
+is issued again; then the retransmissions `h2` arrive (at the clock value `tL`), in any order, and the
+transfer completes at the tile that delivers the last missing byte. -/
+theorem C03_receiver_recovers_naks_lost (env : Env) (hd : Hdr) (d1 : DestSt) (dst : String) (F c1 crc : List UInt8)
+    (seg m : Nat) (rc : RemoteCfg) (t : Tid) (cks : Nat) (conf : Hdr) (h1 h2 : List (Nat × Nat))
+    (times : List Nat) (tL : Nat)
+    (hs : 0 < seg) (hm1 : 1 ≤ m) (ha : AdmissibleA env rc hd)
+    (hR1 : RecvG d1 dst F c1 seg h1 rc t cks conf) (hnc : d1.p.nakCounter = 0)
+    (hmax : maxSegReqs rc.maxPkt conf = some m) (hnak : rc.nakMs ≠ 0) (hms : rc.ackMs ≠ 0)
+    (hT2 : ∀ q ∈ h2, Tile seg F.length q.1 q.2)
+    (hmiss : ∃ x, x < F.length ∧ ¬ covered h1 x)
+    (hall : ∀ x, x < F.length → covered (h1 ++ h2) x)
+    (hexp : C04.Expiring rc.nakMs env.now times) (hlim : times.length < rc.nakLim)
+    (hver : cks = 15 ∨ ∀ fs : Fs, fs.get dst = some (.file F) →
+      Fs.calcChecksum fs (Checksum.CksType.ofNat cks) dst F.length 4096 = .ok crc) :
+    ∃ d2 d3 d4 outs dE,
+      stateMachine env (some (.eof hd ccNoError crc F.length none)) d1 = .ok () d2 ∧
+      stateMachine env none (drained d2) = .ok () d3 ∧
+      d3.queue = nakSequence conf F.length m false d3.p.trk ∧
+      (∀ x, den d3.p.trk x ↔ (x < F.length ∧ ¬ covered h1 x)) ∧
+      nakRoundsG env.cfg times (drained d3) = some (outs, d4) ∧
+      outs = List.replicate times.length d3.queue ∧
+      feedTilesD ⟨env.cfg, tL⟩ hd F h2 d4 = some (drained dE) ∧
+      dE.queue = [mkFin conf ⟨ccNoError, dcComplete, fsRetained, none⟩] ∧
+      dE.fs.get dst = some (.file F) ∧ (∀ q, q ≠ dst → dE.fs.get q = d1.fs.get q) ∧ dE.flts = [] ∧
+      dE.inds.filter isFinished = d1.inds.filter isFinished ++
+        (if env.cfg.indFinished then [.finished (some t) ⟨ccNoError, dcComplete, fsRetained, none⟩] else []) := by
+  have heof := C03_eof_any env d1 dst F c1 crc seg h1 rc t cks conf hd hR1 ha
+  have hA : AckedG (drained (afterEofG env d1 t crc F.length)) dst F c1 crc seg h1 rc t cks conf :=
+    AckedG.ofRecvG hR1
+  have hEofInv := hR1.hinv.eof
+  have htrkne : (drained (afterEofG env d1 t crc F.length)).p.trk ≠ [] := by
+    intro hnil
+    have hco : ((tsOf d1.p).eof F.length).trk = [] := by
+      show Tracker.coalesce (tailTrk (tsOf d1.p) F.length) = []
+      have : tailTrk (tsOf d1.p) F.length = [] := hnil
+      rw [this]; rfl
+    obtain ⟨x, hx, hnc'⟩ := hmiss
+    exact hnc' ((hEofInv.trk_nil_iff).1 hco x hx)
+  have hdefc := C03_deferred_any env _ dst F c1 crc seg h1 rc t cks conf m hA hmax hnak htrkne
+  have hW : WaitG (drained (afterDeferredG env (drained (afterEofG env d1 t crc F.length)) rc F.length m)) dst F c1
+      crc seg h1 rc t cks conf ⟨env.now, rc.nakMs⟩ :=
+    WaitG.ofAckedG hA (by omega)
+      (by show d1.p.progress ≤ F.length; rw [hR1.hprog]; exact hR1.hinv.leSize)
+      (by intro q hq; show q.2 ≤ d1.p.progress; rw [hR1.hprog]; exact hR1.hinv.hle q hq)
+  have hd3trk : (afterDeferredG env (drained (afterEofG env d1 t crc F.length)) rc F.length m).p.trk =
+      ((tsOf d1.p).eof F.length).trk := by
+    simp [afterDeferredG, drained, afterEofG, eofP, TS.eof, tailTrk, tsOf]
+  obtain ⟨d4, outs, hrounds, hW4, houts, htrk4, hfs4, hin4, -⟩ := C03_nak_expiries_any env.cfg dst F crc seg h1 rc t cks
+    conf m hmax hmiss times _ c1 ⟨env.now, rc.nakMs⟩ hW hexp
+    (by show d1.p.nakCounter + times.length < rc.nakLim; rw [hnc]; omega)
+  have haL : AdmissibleA ⟨env.cfg, tL⟩ rc hd := ⟨ha.hdir, ha.hdst, ha.hsrc, ha.hmode⟩
+  obtain ⟨dE, hfeed, -, -, -, hEq, hEfile, hEother, hEflts, hEinds⟩ := C03_wait_recovers ⟨env.cfg, tL⟩ hd d4 dst F c1 crc seg
+    rc t cks conf _ h1 h2 hs haL hW4 hms hT2 hmiss hall hver
+  refine ⟨afterEofG env d1 t crc F.length, _, d4, outs, dE, heof, hdefc, ?_, ?_, hrounds, ?_, hfeed, hEq, hEfile, ?_,
+    hEflts, ?_⟩
+  · simp [afterDeferredG, drained, afterEofG, eofP, hR1.hconf]
+  · intro x; rw [hd3trk]; exact hEofInv.exact x
+  · rw [houts]
+    simp [afterDeferredG, drained, afterEofG, eofP, hR1.hconf]
+  · intro q hq
+    rw [hEother q hq, hfs4]
+    rfl
+  · rw [hEinds, hin4]
+    have : (drained (afterDeferredG env (drained (afterEofG env d1 t crc F.length)) rc F.length m)).inds.filter isFinished =
+        d1.inds.filter isFinished := by
+      simp only [drained, afterDeferredG, afterEofG, List.filter_append]
+      cases env.cfg.indEofRecv <;> simp [isFinished]
+    rw [this]
 
 end AnyLoss
 
@@ -5859,6 +6404,58 @@ example : True := by
     ⟨rfl, rfl, by decide, rfl⟩ (by decide) (by decide) rfl (by decide) (by decide)
     rfl rfl rfl rfl rfl (by decide) (Or.inl ⟨[9], rfl⟩)
     (by decide) (by decide) (by decide)
+    (Or.inr (by
+      intro fs hfs
+      simp only [Fs.calcChecksum, hfs]
+      decide +kernel))
+  trivial
+
+/-- `C03_receiver_recovers_naks_lost` applies: the last tile overtakes, the middle one is lost; the NAK
+sequence is lost twice (expiries at 1000 and 2000, limit 3); the retransmissions arrive at 2500 -/
+example : True := by
+  obtain ⟨-, hR⟩ := C02_metadata_ack envD d0 hdrD rcD false 3 5 "/a" "/b" none ⟨rfl, rfl, by decide, rfl⟩
+    rfl rfl rfl rfl rfl (by decide) (Or.inl ⟨[9], rfl⟩)
+  obtain ⟨d1, c1, -, hR1, -, -, hnc⟩ := C03_receiver_any_history envD hdrD "/b" F 2 rcD ⟨⟨1, 2⟩, ⟨0, 2⟩⟩ 3 _ (by decide)
+    ⟨rfl, rfl, by decide, rfl⟩ rfl [(4, 5), (0, 2)] _ [] []
+    (by intro q hq; simp at hq; rcases hq with rfl | rfl
+        · exact ⟨⟨2, rfl⟩, by decide, rfl⟩
+        · exact ⟨⟨0, rfl⟩, by decide, rfl⟩)
+    (RecvG.ofReceivingA hR rfl)
+  have h := C03_receiver_recovers_naks_lost envD hdrD d1 "/b" F c1 [71, 11, 153, 244] 2 29 rcD ⟨⟨1, 2⟩, ⟨0, 2⟩⟩ 3 _
+    [(4, 5), (0, 2)] [(2, 4)] [1000, 2000] 2500 (by decide) (by decide) ⟨rfl, rfl, by decide, rfl⟩
+    (by simpa using hR1) (by rw [hnc]; rfl) (by decide) (by decide) (by decide)
+    (by intro q hq; simp at hq; subst hq; exact ⟨⟨1, rfl⟩, by decide, rfl⟩)
+    ⟨2, by decide, by simp [covered]⟩
+    (by intro x hx
+        have : x = 0 ∨ x = 1 ∨ x = 2 ∨ x = 3 ∨ x = 4 := by simp [F] at hx; omega
+        rcases this with rfl | rfl | rfl | rfl | rfl <;> simp [covered])
+    (by simp [C04.Expiring, envD, rcD]) (by decide)
+    (Or.inr (by
+      intro fs hfs
+      simp only [Fs.calcChecksum, hfs]
+      decide +kernel))
+  trivial
+
+def rcDI : RemoteCfg := { rcD with imm := true }
+def envDI : Dest.Env := ⟨⟨⟨2, 2⟩, true, true, true, true, [rcDI], 1000⟩, 0⟩
+
+/-- `C03_receiver_recovers_any_loss_immediate` applies (immediate NAK mode): the last tile arrives first —
+an immediate NAK for `[0, 4)` is emitted and lost —, then the first tile; after the EOF the deferred
+procedure requests `[2, 4)`; the middle tile arrives -/
+example : True := by
+  obtain ⟨-, hR⟩ := C02_metadata_ack envDI d0 hdrD rcDI false 3 5 "/a" "/b" none ⟨rfl, rfl, by decide, rfl⟩
+    rfl rfl rfl rfl rfl (by decide) (Or.inl ⟨[9], rfl⟩)
+  have h := C03_receiver_recovers_any_loss_immediate envDI hdrD _ "/b" F [71, 11, 153, 244] 2 29 rcDI ⟨⟨1, 2⟩, ⟨0, 2⟩⟩ 3 _
+    [(4, 5), (0, 2)] [(2, 4)] (by decide) (by decide) ⟨rfl, rfl, by decide, rfl⟩ hR rfl rfl (by decide)
+    (by decide) (by decide)
+    (by intro q hq; simp at hq; rcases hq with rfl | rfl
+        · exact ⟨⟨2, rfl⟩, by decide, rfl⟩
+        · exact ⟨⟨0, rfl⟩, by decide, rfl⟩)
+    (by intro q hq; simp at hq; subst hq; exact ⟨⟨1, rfl⟩, by decide, rfl⟩)
+    ⟨2, by decide, by simp [covered]⟩
+    (by intro x hx
+        have : x = 0 ∨ x = 1 ∨ x = 2 ∨ x = 3 ∨ x = 4 := by simp [F] at hx; omega
+        rcases this with rfl | rfl | rfl | rfl | rfl <;> simp [covered])
     (Or.inr (by
       intro fs hfs
       simp only [Fs.calcChecksum, hfs]
